@@ -77,7 +77,8 @@ ResetAll ==
 \* ---- properties evaluated after every record (only for the client whose history changed) --------
 HardNames == {"ConnectOnce_D", "ConnectBeforeMessages_D", "MessageOncePerClientOrder_D", "DisconnectOnce_D",
               "NothingAfterDisconnect_D", "AcceptedIsConnected", "RemovedIsDisconnected",
-              "DisconnectOnlyIfClosed", "OnlyAdmittedDispatched", "InvokedWasDispatched"}
+              "DisconnectOnlyIfClosed", "OnlyAdmittedDispatched", "InvokedWasDispatched",
+              "ClosedAfterAllMessages"}
 InvNames == {"ConnectOnce_I", "ConnectBeforeMessages_I", "MessageOncePerClientOrder_I", "DisconnectOnce_I",
              "NothingAfterDisconnect_I"}
 Holds(n, c) ==
@@ -90,6 +91,7 @@ Holds(n, c) ==
     [] n = "RemovedIsDisconnected" -> ((c \in admitted /\ c \notin streams) => CountK(dseq[c], "D") = 1)
     [] n = "DisconnectOnlyIfClosed" -> (Has(dseq[c], "D") => (cst[c] # "open" \/ c \in tmo))
     [] n = "OnlyAdmittedDispatched" -> (dseq[c] # <<>> => c \in admitted)
+    [] n = "ClosedAfterAllMessages" -> ((cst[c] = "closed" /\ Has(dseq[c], "D") /\ c \notin tmo) => CountK(dseq[c], "M") = sent[c])
     \* every prefix was checked after the record that produced it: only the newest start is looked at
     [] n = "InvokedWasDispatched" ->
           (iseq[c] # <<>> =>
@@ -145,7 +147,7 @@ Guard ==
     [] e.ev = "C_Ping"     -> IsC(e.c) /\ PingPre(e.c)
     [] e.ev = "C_Pong"     -> IsC(e.c) /\ cst[e.c] = "open"
     [] e.ev = "C_Close"    -> IsC(e.c) /\ ClosePre(e.c)
-    [] e.ev = "C_Vanish"   -> IsC(e.c) /\ VanishPre(e.c, e.k) /\ (e.k = "fin" => hb)
+    [] e.ev = "C_Vanish"   -> IsC(e.c) /\ VanishPre(e.c, e.k)
     [] e.ev = "C_Rx"       -> IsC(e.c) /\ RxPre(e.c) /\ sentTo[e.c][rxn[e.c] + 1] = MsgOf(e)
     [] e.ev = "X_Send"     -> /\ e.src = "X" /\ e.sc = NoClient /\ e.m = ext /\ e.j = 1
                               /\ IF e.k = "uni" THEN IsC(e.to) ELSE e.k = "bc" /\ e.to = NoClient
@@ -174,7 +176,9 @@ Guard ==
                                  /\ ToSet(e.lst) = streams /\ Len(e.lst) = Cardinality(streams)
     [] e.ev = "Loop_Shutdown" -> LoopOK /\ lpc = "top" /\ shut = "sent"
     [] e.ev = "Exit"       -> lpc = "done" /\ rmp = NoClient
-    [] e.ev = "End"        -> /\ lpc = "done" /\ e.m = 0 /\ q = <<>> /\ WorkersIdle
+    \* e.n: clients that vanished, were written to afterwards (which makes the kernel report the dead socket)
+    \* and were still not disconnected when the harness gave up waiting (10 s) before the shutdown
+    [] e.ev = "End"        -> /\ lpc = "done" /\ e.m = 0 /\ e.n = 0 /\ q = <<>> /\ WorkersIdle
                               /\ CompleteAtEnd /\ ReceivedAll
     [] OTHER -> FALSE
 
